@@ -255,6 +255,41 @@ def run(index, rep, tier):
         rep.check(keyok, "R01.5", g.qualname, "map keys/values", fn_where(g), "maps are keyed by the edge's own bipartition / split bitmask and hold that edge",
                   "the edge maps are keyed or filled with something other than the edge's own bipartition/split bitmask")
 
+    # ---- R01.10
+    with rep.section("R01.10"):
+        rep.rule("R01.10", "an encode is complete: in encode_bipartitions every edge that goes into the list the encoding is built from gets a NEW bipartition in the same iteration, and the compile step is mapped over that very list on every path (no edge keeps a bipartition compiled against an earlier leaf set)")
+        enc = index.function(TREE + ".encode_bipartitions")
+        g = cfg_of(enc)
+        loops = [l for l in walk_no_nested(enc.node) if isinstance(l, ast.For) and "postorder_edge_iter" in norm(l.iter)]
+        if len(loops) != 1 or not isinstance(loops[0].target, ast.Name):
+            raise AnalysisError("R01.10: edge loop of encode_bipartitions not recognised")
+        ev = loops[0].target.id
+        apps = [nd for nd in g.nodes if any(call_name(c) == "append" and c.args and norm(c.args[0]) == ev for c in node_calls(nd)) and any(nd.stmt is x for x in ast.walk(loops[0]))]
+        lists = {norm(c.func.value) for nd in apps for c in node_calls(nd) if call_name(c) == "append"}
+        stored = [a for a in walk_no_nested(enc.node) if isinstance(a, ast.Assign) and norm(a.targets[0]) == "self.bipartition_encoding" and not is_none(a.value)]
+        used = {l for l in lists if any(isinstance(x, ast.Name) and x.id == l for a in stored for x in ast.walk(a.value))}
+        if not apps or len(used) != 1:
+            raise AnalysisError("R01.10: list of encoded edges not recognised")
+        lst = used.pop()
+        apps = [nd for nd in apps if any(call_name(c) == "append" and norm(c.func.value) == lst for c in node_calls(nd))]
+        head = g.loops.get(loops[0])
+
+        def renews(nd):
+            return nd.kind == "stmt" and isinstance(nd.ast, ast.Assign) and norm(nd.ast.targets[0]) in (ev + ".bipartition", ev + "._bipartition") and isinstance(nd.ast.value, ast.Call) and call_name(nd.ast.value) == "Bipartition"
+        for nd in apps:
+            w = g.can_reach(nd, lambda x: x is head, avoid=renews, follow_exc=False)
+            rep.check(w is None, "R01.10", enc.qualname, "an encoded edge can keep its old bipartition", fn_where(enc, nd.stmt), "every edge appended to `%s` gets a new Bipartition before the next edge" % lst,
+                      "encode_bipartitions has a path on which an edge is put into `%s` (the edges of the encoding) and the loop moves on without giving it a new Bipartition: that edge keeps the object compiled by an earlier encode - with the tree leaf set, the normalisation bit and the frozen split of the tree as it was before tips were pruned or added - so an update requested after a change of the leaf set leaves stale splits behind" % lst)
+        comp = [c for c in calls_in(enc.node) if isinstance(c.func, ast.Name) and c.func.id == "map" and len(c.args) == 2]
+        rep.check(bool(comp) and all(norm(c.args[1]) == lst for c in comp), "R01.10", enc.qualname, "compile step not mapped over the list of encoded edges", fn_where(enc, comp[0] if comp else None), "the compile function is mapped over `%s`" % lst,
+                  "encode_bipartitions compiles %s instead of `%s`, the list of all encoded edges: edges left out keep uncompiled or stale split bitmasks" % ([norm(c.args[1]) for c in comp], lst))
+        after_loop = {x.id for x in g.reach([t for lab, t in head.succ if lab == "done"], follow_exc=False)}
+        rets = [nd for nd in g.nodes if nd.kind == "stmt" and isinstance(nd.ast, ast.Return) and nd.id in after_loop]
+        for r in rets:
+            ok = g.dominated_by(r, lambda x: any(isinstance(c.func, ast.Name) and c.func.id == "map" and len(c.args) == 2 and norm(c.args[1]) == lst for c in node_calls(x)), follow_exc=False)
+            rep.check(ok, "R01.10", enc.qualname, "a return not preceded by the compile step", fn_where(enc, r.stmt), "every return of encode_bipartitions follows the compile step over `%s`" % lst,
+                      "encode_bipartitions can return without having mapped the compile function over `%s`" % lst)
+
     # ---- R01.9
     with rep.section("R01.9"):
         rep.rule("R01.9", "bit-level compatibility has the three-cell normal form: is_compatible_bitmasks answers True exactly when one of m1&m2, m1&~m2, ~m1&m2 is empty (within the fill mask) and never on ~m1&~m2; from_bipartition_encoding hands SPLIT masks to from_split_bitmasks")
